@@ -739,6 +739,7 @@ func freshStorage(c *Ctx, f *ssa.Function, v ssa.Value) (string, bool) {
 	case *ssa.Alloc:
 		// &T{field: clone}
 		okAll, n := true, 0
+		uninit := false
 		for _, r := range core.Refs(x) {
 			if fa, ok := r.(*ssa.FieldAddr); ok {
 				for _, rr := range core.Refs(fa) {
@@ -747,12 +748,23 @@ func freshStorage(c *Ctx, f *ssa.Function, v ssa.Value) (string, bool) {
 						if !isClone(st.Val) {
 							okAll = false
 						}
+						// on every way to a return of this object: a clone whose
+						// storage is only sometimes initialised is a set that
+						// cannot be added to
+						for _, ret := range core.Returns(f) {
+							if len(ret.Results) > 0 && ret.Results[0] == ssa.Value(x) && !core.Dominates(st, ret) {
+								uninit = true
+							}
+						}
 					}
 				}
 			}
 		}
 		if n == 0 {
 			return "no storage initialised", false
+		}
+		if uninit {
+			return "the storage of the clone is not initialised on every path (a clone of an empty set must be usable: Add on a nil map panics)", false
 		}
 		if !okAll {
 			return "a storage field is not a fresh copy (slices.Clone / maps.Clone / append onto an empty zero-capacity slice)", false
